@@ -20,10 +20,13 @@ Fixpoint index_members (a : archive) (i : nat) : list (nat * str) :=
 Definition save_with (a : archive) (fs : list frec) (roots : frec -> res anode)
   : res (list (str * wmember)) :=
   let content := filter (fun f => mem_str (f_type f) save_overwrite_types) fs in
-  let excl := map f_path content in
+  (* by_path = {x.path: x for x in content_files}: one entry per path, at the
+     position of its first File, holding its LAST File *)
+  let by_path := fold_left (fun d f => dict_set (f_path f) f d) content [] in
+  let excl := map fst by_path in
   let copied := map (fun ix => (snd ix, WCopy (fst ix)))
                     (filter (fun ix => negb (mem_str (snd ix) excl)) (index_members a 0%nat)) in
-  written <- mapM (fun f => t <- roots f ;; Ok (f_path f, WXml t)) content ;;
+  written <- mapM (fun pf => t <- roots (snd pf) ;; Ok (fst pf, WXml t)) by_path ;;
   Ok (copied ++ written).
 
 Definition save (a : archive) (o : opts) : res (list (str * wmember)) :=
